@@ -597,6 +597,13 @@ pub fn run(args: &Args) {
     let rt = tokio::runtime::Builder::new_current_thread().enable_all().build().unwrap();
     if let Some(case) = &args.replay {
         if let Some(h) = case.strip_prefix("dec ") { println!("impl: {}", impl_dec(&unhex(h.trim()))); return; }
+        if let Some(h) = case.strip_prefix("hs ") {
+            match rt.block_on(super::c02::run_script(&super::c02::Script::parse(h))) {
+                Some(o) => { for (i, l) in o.lines { println!("ops: {i}\nimpl: {l}"); } for (s, d) in o.fails { println!("ORACLE-FAIL {s} {d}"); } }
+                None => println!("inconclusive (timing)"),
+            }
+            return;
+        }
         if let Some(r) = case.strip_prefix("pub ") {
             let f: Vec<&str> = r.split_whitespace().collect();
             println!("impl: {:?}", publication_probe(&rt, f[0] == "c", f[1].parse().unwrap()));
@@ -647,6 +654,27 @@ pub fn run(args: &Args) {
     for chunk in flips.chunks(32) {
         let script: Vec<(Inj, bool)> = chunk.iter().map(|b| (Inj::Captured { len: 16, mutation: Mut::Flip(*b) }, false)).collect();
         emit_session(&mut run, &rt, rng.chance(1, 2), &script);
+    }
+    // (3a) "or during the handshake": clear-text ApplicationData / close_notify / ChangeCipherSpec / Finished records
+    // injected just before each handshake datagram (before keys, between keys and Connected), both directions.
+    // Judged by the recorder's clear-text oracle (`rec:handshake-phase:…`) and replayed on the model (`hs` stream).
+    {
+        use super::c02::{Act, Rule, Script, run_script};
+        let mut scripts = vec![];
+        for (fc, kinds) in [(false, vec![2u8, 11, 12, 14, 200, 20]), (true, vec![16u8, 200, 20])] {
+            for k in kinds { for ct in [23u8, 21, 22, 20] { scripts.push(Script { ce: 'o', se: 'n', rules: vec![Rule { from_client: fc, typ: k, act: Act::PreInject(ct) }] }); } }
+        }
+        for sc in &scripts {
+            for _ in 0..3 {
+                if let Some(o) = rt.block_on(run_script(sc)) {
+                    for (i, l) in &o.lines { run.case("hs", i, l, true); }
+                    run.count("handshake_phase_injection_scripts");
+                    for (sig, d) in o.fails { if sig.starts_with("rec:") || sig.starts_with("noconn:") || sig.starts_with("state:") { run.fail(&sig, &format!("hs {d}"), &sc.text()); } }
+                    break;
+                }
+                run.count("timing_retry");
+            }
+        }
     }
     // (3b) a sender exactly between the publication statements
     pub_cases(&mut run, &rt, if args.tier_thorough { 10 } else { 2 });
